@@ -83,7 +83,7 @@ Lemma quiet_on_open c s p : quiet s (on_open c s p).
 Proof.
   unfold on_open. destruct (ps s p) as [x|] eqn:Hp.
   - destruct x as [|b|po| |y|d o i|k]; try (quiet_tac; fail).
-    destruct po as [y|]; [quiet_tac|]. svc_tac s p.
+    unfold reusable. destruct po as [y|]; [destruct (pend_find y (pend s)); [quiet_tac|]|]; svc_tac s p.
   - destruct (should_dial c); cbn [negb]; [destruct (dialable c p)|]; quiet_tac.
 Qed.
 
